@@ -43,16 +43,23 @@ def case_strategy(draw):
         "n": n,
         "trough": {"kind": trough_kind,
                    "cap": n if trough_kind == "entrance" else n + draw(st.integers(0, 1)),
-                   "outhole": draw(st.booleans())},
+                   "outhole": draw(st.booleans()),
+                   # a jam switch in the exit lane (never activated by this world: no jams) must not count as a slot
+                   "jam": trough_kind == "switch" and draw(st.booleans())},
         "launcher": {"cap": draw(st.sampled_from([1, 1, 2])), "mechanical": False},
         "lock": None,
         "max_attempts": draw(st.sampled_from([0, 0, 2, 3])),
         "lock_first": draw(st.booleans()),
     }
+    if trough_kind == "switch" and topo["trough"]["outhole"] and n >= 2 and draw(st.integers(0, 3)) == 0:
+        # the trough is one slot short: the last ball waits in the outhole until there is room (n-1 in the trough at boot)
+        topo["trough"]["cap"] = n - 1
     # optional VUK between the launcher and the playfield (trough -> launcher -> VUK -> playfield)
     topo["vuk"] = draw(st.sampled_from([None, None, None, {"cap": 1}, {"cap": 2}]))
     if topo["launcher"]["cap"] == 1 and not topo["vuk"]:
         topo["launcher"]["mechanical"] = draw(st.sampled_from([False, False, True]))
+    # a coil-fired launcher with a launch button: player-controlled ejects wait for the event ev_launch
+    topo["launcher"]["pc_event"] = not topo["launcher"]["mechanical"] and draw(st.sampled_from([False, False, True]))
     if draw(st.booleans()):
         topo["lock"] = {"kind": draw(st.sampled_from(["switch", "switch", "entrance"])),
                         "cap": draw(st.integers(1, 3))}
@@ -76,6 +83,8 @@ def case_strategy(draw):
         ops += [st.just(["knock"])]
     if topo["launcher"]["mechanical"]:
         ops += [st.tuples(st.just("plunge"), st.sampled_from([0, 100, 700]), st.booleans()).map(list)] * 2
+    if topo["launcher"].get("pc_event"):
+        ops += [st.just(["launch"])] * 2
     op = st.one_of(*ops)
     first = st.tuples(st.just("add_ball"), st.integers(1, min(n, 3)), st.booleans()).map(list)
     head = draw(st.lists(st.tuples(first, st.sampled_from(GAPS)).map(list), max_size=2))
@@ -100,6 +109,7 @@ def game_strategy(draw):
             topo["vuk"] = {"cap": 1}
     topo["launcher"]["mechanical"] = topo["launcher"]["cap"] == 1 and not topo.get("vuk") and \
         draw(st.sampled_from([False, False, True]))
+    topo["launcher"]["pc_event"] = not topo["launcher"]["mechanical"] and draw(st.sampled_from([False, False, True]))
     game = {"balls_per_game": draw(st.integers(1, 3)),
             "ball_save": draw(st.one_of(st.none(), *[st.fixed_dictionaries({
                 "active_time": st.sampled_from(["2s", "8s", "30s", "120s"]), "auto_launch": st.booleans(),
@@ -118,6 +128,8 @@ def game_strategy(draw):
         ops += [st.tuples(st.just("lock_shot"), st.sampled_from([50, 400, 1500])).map(list)] * 3
     if topo["launcher"]["mechanical"]:
         ops += [st.tuples(st.just("plunge"), st.sampled_from([0, 100, 700]), st.booleans()).map(list)] * 4
+    if topo["launcher"].get("pc_event"):
+        ops += [st.just(["launch"])] * 3
     op = st.one_of(*ops)
     # a third of the histories start with a multiball under way (two balls on the playfield is where saves, drains
     # and ejects overlap); the rest is free
@@ -187,7 +199,11 @@ def build_config(topo):
               "max_eject_attempts": topo["max_attempts"]}
     if t["kind"] == "switch":
         trough["ball_switches"] = ", ".join("s_t%d" % i for i in range(1, t["cap"] + 1))
-        start_active = ["s_t%d" % i for i in range(1, n + 1)]
+        start_active = ["s_t%d" % i for i in range(1, min(n, t["cap"]) + 1)]
+        if t.get("jam"):
+            trough["jam_switch"] = "s_t_jam"
+        if t["cap"] < n:
+            start_active.append("s_oh")
     else:
         trough.update({"entrance_switch": "s_t_ent", "entrance_switch_full_timeout": "500ms",
                        "ball_capacity": t["cap"]})
@@ -214,6 +230,8 @@ def build_config(topo):
         launcher["mechanical_eject"] = True
     else:
         launcher["eject_coil"] = "c_launch"
+        if la.get("pc_event"):
+            launcher["player_controlled_eject_event"] = "ev_launch"
     if topo.get("vuk"):
         launcher["eject_targets"] = "bd_vuk"
     bd["bd_launcher"] = launcher
@@ -263,13 +281,14 @@ class World:
         self.devs = collections.OrderedDict()
         if t["kind"] == "switch":
             tr = Dev("bd_trough", "switch", t["cap"], ["s_t%d" % i for i in range(1, t["cap"] + 1)],
-                     "c_trough", "bd_launcher", n)
+                     "c_trough", "bd_launcher", min(n, t["cap"]))
         else:
             tr = Dev("bd_trough", "entrance", t["cap"], ["s_t_ent"], "c_trough", "bd_launcher", n)
             tr.ent_held = True
         self.devs["bd_trough"] = tr
         if t["outhole"]:
-            self.devs["bd_outhole"] = Dev("bd_outhole", "switch", 1, ["s_oh"], "c_outhole", "bd_trough", 0)
+            self.devs["bd_outhole"] = Dev("bd_outhole", "switch", 1, ["s_oh"], "c_outhole", "bd_trough",
+                                          1 if t["kind"] == "switch" and t["cap"] < n else 0)
         la = topo["launcher"]
         self.devs["bd_launcher"] = Dev("bd_launcher", "switch", la["cap"],
                                        ["s_l%d" % i for i in range(1, la["cap"] + 1)],
@@ -635,12 +654,18 @@ def run(case, focus=None):
                 return {"unclaimed_balls": unclaimed_balls}
             m.events.add_handler("balldevice_bd_lock_ball_enter", claim, priority=5)
 
+        launches = [0]
+
         def settle():
             """Let the world and MPF come to rest. Returns False if they do not (bounded liveness)."""
             def wants_plunge():
                 la = w.devs["bd_launcher"]
                 return topo["launcher"]["mechanical"] and la.content > 0 and not la.leaving and \
                     mdev["bd_launcher"].state not in ("idle", "eject_broken") and "bd_launcher" not in broken
+            def wants_launch():
+                return topo["launcher"].get("pc_event") and mdev["bd_launcher"].state == "ejecting" and \
+                    w.devs["bd_launcher"].content > 0 and not w.devs["bd_launcher"].leaving and \
+                    "bd_launcher" not in broken and launches[0] < 40
             for _ in range(60):
                 if game and game.get("ball_save") and game["ball_save"]["eject_delay"] == "event":
                     m.events.post("ev_bs_eject")      # whoever holds saved balls back releases them eventually
@@ -651,9 +676,20 @@ def run(case, focus=None):
                 if wants_plunge():
                     w.plunge(200, False)     # the player eventually plunges a ball MPF is waiting for
                     continue
+                if wants_launch():
+                    launches[0] += 1
+                    m.events.post("ev_launch")      # ... or presses the launch button (after any waiting time)
+                    rig.advance(EJECT_TIMEOUT["bd_launcher"] + 1.0)     # a failed attempt is over by then
+                    continue
                 c0, p0 = w.changes, sum(w.pulses.values())
                 rig.advance(QUIET)
-                if c0 == w.changes and p0 == sum(w.pulses.values()) and not w.busy() and not wants_plunge():
+                if c0 == w.changes and p0 == sum(w.pulses.values()) and not w.busy() and not wants_plunge() and \
+                        not wants_launch():
+                    if game and game.get("ball_save") and game["ball_save"]["eject_delay"] == "event":
+                        m.events.post("ev_bs_eject")      # balls saved since the last release are released as well
+                        rig.advance(3.0)
+                        if p0 != sum(w.pulses.values()) or w.busy() or c0 != w.changes:
+                            continue
                     return True
             return False
 
@@ -678,14 +714,22 @@ def run(case, focus=None):
                     "at rest (%s) counts sum to %d, num_balls_known == %d, balls in the machine %d" %
                     (where, total, known, topo["n"]), t=rig.now)
             # ---- C05: idle or broken, nothing servable queued
-            for n, d in mdev.items():
+            expecting = set()       # devices a ball is promised to by a source that waits for room
+            for n, d in sorted(mdev.items(), key=lambda kv: kv[0] != "bd_outhole"):
                 if broken:
                     break       # devices upstream of a broken one legitimately wait for ever
+                tgt_ = w.devs[n].target
+                waits_for_room = d.state == "waiting_for_target_ready" and tgt_ != "playfield" and \
+                    w.devs[tgt_].content >= w.devs[tgt_].cap and w.devs[n].content > 0
+                if waits_for_room:
+                    w.classes.add("eject waits for room in a full target")
+                    expecting.add(tgt_)
+                    continue
                 if d.state != "idle":
                     add(out["c05"], "rest:not-idle",
                         "at rest (%s) %s is in state %s (world: %d balls in it, %d loose)" %
                         (where, n, d.state, w.devs[n].content, w.loose), t=rig.now)
-                if d.available_balls != d.balls and d.state == "idle" and not broken:
+                if d.available_balls != d.balls and d.state == "idle" and not broken and n not in expecting:
                     add(out["c05"], "rest:claimed-ball-without-eject",
                         "at rest (%s) %s is idle with balls=%d but available_balls=%d" %
                         (where, n, d.balls, d.available_balls), t=rig.now)
@@ -798,6 +842,9 @@ def run(case, focus=None):
                     w.classes.add("entrance switch of a full device hit again")
             elif kind == "plunge":
                 applied = w.plunge(op[1], op[2])
+            elif kind == "launch":
+                m.events.post("ev_launch")
+                w.classes.add("launch button")
             elif kind == "escape":
                 ok = settle()
                 if not ok:
@@ -844,6 +891,10 @@ def run(case, focus=None):
             for b in broken:
                 if not topo["max_attempts"]:
                     add(out["c05"], "broken-without-limit", "%s reported broken although max_eject_attempts is 0" % b)
+                elif w.devs[b].coil and w.pulses[b] < topo["max_attempts"]:
+                    add(out["c05"], "broken-without-failed-ejects", "%s reported itself broken after %d coil pulses; "
+                        "max_eject_attempts is %d (waiting for the player is not a failed eject)" %
+                        (b, w.pulses[b], topo["max_attempts"]))
         out["classes"] = set(w.classes)
         moving = [c for c in w.classes if not c.startswith("op skipped")]
         out["nontrivial"] = bool(moving) or sum(w.pulses.values()) >= 3
